@@ -7,7 +7,7 @@
 From Coq Require Import ZArith NArith List Bool.
 From Lithium Require Import PyBase.
 Import ListNotations.
-Open Scope N_scope.
+Local Open Scope N_scope.
 
 Definition simple_term (b : N) : bool :=
   (b =? 10) || (b =? 11) || (b =? 12) || (b =? 28) || (b =? 29) || (b =? 30).
